@@ -59,8 +59,13 @@ def main() -> int:
             meta = os.path.join(sd, name, "meta.json")
             if os.path.exists(meta):
                 m = json.load(open(meta))
-                mutants.append({"name": f"seeded/{name}", "property": m["property"],
-                                "patch": os.path.join(sd, name, "patch.diff"), "note": m.get("needs", "")})
+                if m.get("superseded"):
+                    print(f"SKIPPED        {m['property']} seeded/{name:38s} superseded: {m['superseded'][:110]}", flush=True)
+                    continue
+                mutants.append({"name": f"seeded/{name}", "property": m.get("check_with", m["property"]),
+                                "patch": os.path.join(sd, name, "patch.diff"), "note": m.get("needs", ""),
+                                "not_covered": m.get("not_covered"),
+                                "filed_under": m["property"] if m.get("check_with") else None})
     props = [p.upper() for p in a.props]
     rows = []
     bad = 0
@@ -90,8 +95,12 @@ def main() -> int:
             vio = [ln for ln in out.splitlines() if ln.startswith("VIOLATION")]
             sig = [ln for ln in out.splitlines() if ln.startswith("violation:")]
             status = "CAUGHT" if rc == 1 and vio else ("HARNESS-ERROR" if rc == 2 else "MISSED")
-            if status != "CAUGHT":
+            if status == "MISSED" and m.get("not_covered"):
+                status = "NOT-COVERED"      # documented in the seed's meta.json and in DESIGN 13.5
+            elif status != "CAUGHT":
                 bad += 1
+            if m.get("filed_under"):
+                sig = [f"(filed under {m['filed_under']}) " + (sig[0] if sig else "")]
             rows.append((m["name"], m["property"], status, dt, (sig[0][:150] if sig else out[-300:].replace("\n", " | "))))
             if a.progress:
                 r = rows[-1]
